@@ -94,6 +94,9 @@ pub enum Op {
   Buffer(usize),
   /// window_with_count(n) observed through flat_map(|w| w.map(tag(window#)))
   Window(usize),
+  /// window_with_count(n).flat_map(|w| w.count()): one number per window, emitted when the
+  /// window is completed (a window that is failed contributes nothing)
+  WindowCounts(usize),
   /// group_by(x mod k) observed through flat_map(|g| g.map(tag(group#)))
   GroupBy(i64),
   Materialize,
@@ -393,6 +396,9 @@ pub enum Action {
   /// the Using guard is dropped the way unwinding would drop it (`thread::panicking()` is
   /// true meanwhile)
   DropUsingUnwinding(usize),
+  /// the caller drops its handle of the pipeline value (the Observable) while subscriptions
+  /// are still alive; nothing can be subscribed afterwards
+  DropObservable,
   /// advance virtual time by ms (lets timers fire)
   Advance(u64),
   /// connectable cases: publish().connect() / unsubscribe the connection
@@ -438,6 +444,7 @@ impl Case {
         Action::DropUsing(k) => format!("dropusing{}", k),
         Action::DropUsingUnwinding(k) => format!("dropusing{}(unwinding)", k),
         Action::Advance(ms) => format!("+{}ms", ms),
+        Action::DropObservable => "drop-observable".to_string(),
         Action::Connect => "connect".to_string(),
         Action::Disconnect => "disconnect".to_string(),
       })
